@@ -27,6 +27,12 @@ pub struct UdpStream {
 }
 
 impl UdpStream {
+    /// Verification hook: bytes of a received datagram not yet handed to the caller.
+    #[cfg(feature = "verif_hooks")]
+    pub fn verif_buffered(&self) -> &[u8] {
+        &self.buffer[..]
+    }
+
     fn read_into_buffer(&mut self, buf: &mut [u8]) -> std::io::Result<usize> {
         let to_copy = buf.len().min(self.buffer.len());
         self.buffer
